@@ -267,11 +267,12 @@ def _stress_child(args):
     end = time.time() + 20
     while not os.path.exists(barrier_file) and time.time() < end:
         time.sleep(0.0002)
+    t0 = time.time()
     try:
         t = P.parse(text, model_cache_folder=Path(folder), always_update_last_hit=(idx % 2 == 0))
         return ("ok", t is not None and dump(t) == fresh_dump(text))
     except BaseException as e:  # noqa
-        return ("exc", type(e).__name__, str(e)[:200])
+        return ("exc", type(e).__name__, str(e)[:200], time.time() - t0)
 
 
 def stress_round(c, nproc, seed):
@@ -291,7 +292,12 @@ def stress_round(c, nproc, seed):
             res = ar.get(timeout=120)
         recs = []
         for r in res:
-            if r[0] == "exc":
+            if r[0] == "exc" and "locked" in r[2] and r[3] >= 4.5:
+                # sqlite's default busy timeout (5 s) expired on an overloaded machine: the lock model
+                # abstracts waiting as unbounded, so this is not a verdict (an immediate SQLITE_BUSY
+                # or a deadlock of the gated schedules is)
+                recs.append({"drift": "stress-busy-timeout-expired"})
+            elif r[0] == "exc":
                 recs.append({"observable": "exception", "tags": ["stress", "cfg:" + c["name"]], "exception_type": r[1], "detail": r[1] + ": " + r[2]})
             elif not r[1]:
                 recs.append({"observable": "tree-differs-from-uncached-parse", "tags": ["stress", "cfg:" + c["name"]],
@@ -432,6 +438,9 @@ def run(ctx):
     for c in [x for x in configs(False) if x["shared"] is False]:
         for k in range(rounds):
             for rec in stress_round(c, nproc, ctx.seed * 1000 + k):
+                if "drift" in rec:
+                    ctx.note_drift(rec["drift"])
+                    continue
                 ctx.violation(rec, {"kind": "stress", "config": c, "nproc": nproc, "seed": ctx.seed * 1000 + k})
             sn += 1
     ctx.traces += sn
@@ -451,7 +460,7 @@ def replay(ctx, sc):
     if sc["kind"] == "stress":
         recs = []
         for k in range(5):
-            recs += stress_round(sc["config"], sc["nproc"], sc["seed"] + k)
+            recs += [r for r in stress_round(sc["config"], sc["nproc"], sc["seed"] + k) if "drift" not in r]
         return recs[:1]
     recs, drift, oplog = run_schedule(sc["config"], sc["steps"])
     return recs
